@@ -150,6 +150,21 @@ class FileSet:
         return call(self.spec, self.files, variant)
 
 
+# unreadable cache contents that make pickle.load raise different exception families (none of them loads)
+GARBAGE = {
+    'garbage-valueerror': b'garbage\n',
+    'garbage-int': b'Iabc\n.',
+    'garbage-float': b'Fnotafloat\n.',
+    'missing-module': b'cnonexistent_module_xyz\nThing\n.',
+    'missing-class': b'cgemdat.trajectory\nNoSuchClass\n.',
+    'bad-unicode': b'V\xff\xfe\n',
+    'empty-stack': b'0.',
+    'bad-memo': b'h\x05.',
+    'short-frame': b'\x80\x04\x95\xff\x00\x00\x00\x00\x00\x00\x00.',
+}
+FAULT_KINDS = ['empty', 'zeros', 'text', 'bad-opcode', 'delete'] + sorted(GARBAGE)
+
+
 def damage(path, kind, k=None, full=None):
     if kind == 'truncate':
         with open(path, 'wb') as f:
@@ -165,6 +180,9 @@ def damage(path, kind, k=None, full=None):
     elif kind == 'bad-opcode':
         with open(path, 'wb') as f:
             f.write(b'\xff\xfe' + full[2:200])
+    elif kind in GARBAGE:
+        with open(path, 'wb') as f:
+            f.write(GARBAGE[kind])
     elif kind == 'delete':
         os.remove(path)
     else:
@@ -242,6 +260,62 @@ def run_prefix(case):
     return {'nontrivial': 0 < case['k'] < len(full), 'labels': [case['loader']]}
 
 
+def garbage_size(tier):
+    return len(LOADERS) * len(FAULT_KINDS)
+
+
+def garbage_case(tier, idx):
+    return {'loader': LOADERS[idx // len(FAULT_KINDS)], 'kind': FAULT_KINDS[idx % len(FAULT_KINDS)]}
+
+
+def run_garbage(case):
+    fs, path, full = fixed(case['loader'])
+    damage(path, case['kind'], 0, full)
+    check_recovery(fs, 'base', path, full, f'{case["loader"]} cache replaced by {case["kind"]!r}')
+    if open(path, 'rb').read() != full:
+        raise Violation('complete-cache-left-behind', f'{case["loader"]}: cache after fault {case["kind"]!r} differs from the complete cache')
+    return {'nontrivial': case['kind'] != 'delete', 'labels': [case['loader'], case['kind']]}
+
+
+# ----------------------------------------------------------------------------- a vasprun.xml that was itself cut mid-write
+def run_badxml(case):
+    spec = dict(case['spec'], loader='vasprun')
+    fs = FileSet(spec)
+    try:
+        # cut the xml inside the last calculation block
+        xml = open(fs.files['xml_file']).read()
+        cut = xml.rfind('<calculation>') + case['cut']
+        cut = min(max(cut, xml.rfind('<calculation>') + 5), len(xml) - 20)
+
+        def write(d):
+            files = write_files(spec, d)
+            with open(files['xml_file'], 'w') as f:
+                f.write(xml[:cut])
+            return files
+
+        fs.files = write(fs.dir)
+        refs = {}
+        for v in ('base', 'tolerant_xml'):
+            d = tmpdir()
+            refs[v] = call(spec, write(d), v)
+            shutil.rmtree(d, ignore_errors=True)
+        labels = ['strict-raises' if isinstance(refs['base'], Raised) else 'strict-parses', 'tolerant-raises' if isinstance(refs['tolerant_xml'], Raised) else 'tolerant-parses']
+        for v in case['order']:
+            got = fs.load(v)
+            traj_equal(got, refs[v], f'vasprun cut at byte {cut}: load {v!r} in order {case["order"]} (caches present: {cache_files(fs.dir)})')
+        return {'nontrivial': isinstance(refs['base'], Raised) != isinstance(refs['tolerant_xml'], Raised), 'labels': labels}
+    finally:
+        shutil.rmtree(fs.dir, ignore_errors=True)
+
+
+@st.composite
+def badxml_cases(draw, tier):
+    spec = draw(specs(loaders=['vasprun']))
+    if len(spec['frames']) < 2:
+        spec['frames'] = spec['frames'] * 2
+    return {'spec': spec, 'cut': draw(st.integers(5, 400)), 'order': draw(st.lists(st.sampled_from(['base', 'tolerant_xml']), min_size=2, max_size=4))}
+
+
 # ----------------------------------------------------------------------------- generated file sets
 @st.composite
 def specs(draw, loaders=LOADERS):
@@ -311,7 +385,7 @@ def run_faults(case):
 @st.composite
 def fault_cases(draw, tier):
     spec = draw(specs())
-    faults = draw(st.lists(st.one_of(st.builds(lambda fr: {'kind': 'truncate', 'frac': fr}, st.floats(0, 1)), st.sampled_from([{'kind': k} for k in ['empty', 'zeros', 'text', 'bad-opcode', 'delete']])), min_size=1, max_size=5))
+    faults = draw(st.lists(st.one_of(st.builds(lambda fr: {'kind': 'truncate', 'frac': fr}, st.floats(0, 1)), st.sampled_from([{'kind': k} for k in FAULT_KINDS])), min_size=1, max_size=5))
     variants = draw(st.lists(st.sampled_from(VARIANTS[spec['loader']][1:]), max_size=3, unique=True))
     return {'spec': spec, 'faults': faults, 'variants': variants}
 
@@ -415,7 +489,7 @@ class CacheMachine(LogMachine):
     def r_init(self, spec):
         self.step({'op': 'init', 'spec': spec})
 
-    @rule(kind=st.sampled_from(['truncate', 'truncate', 'empty', 'zeros', 'text', 'bad-opcode', 'delete']), frac=st.floats(0, 1))
+    @rule(kind=st.sampled_from(['truncate', 'truncate', 'truncate'] + FAULT_KINDS), frac=st.floats(0, 1))
     def r_fault(self, kind, frac):
         self.step({'op': 'fault', 'kind': kind, 'frac': frac})
 
@@ -432,6 +506,12 @@ SUBS = [
     Sub(name='all-prefixes', kind='enum', run=run_prefix, size=prefix_size, case_at=prefix_case, exhaustive=True,
         rule='complete enumeration of every prefix length 0..len-1 of the cache file of one fixed file set per loader (LAMMPS, VASP, GROMACS): load returns the reference, the rewritten cache is byte-identical to the complete one and loads to the reference',
         shards={'quick': 16, 'thorough': 16}),
+    Sub(name='unreadable-kinds', kind='enum', run=run_garbage, size=garbage_size, case_at=garbage_case, exhaustive=True,
+        rule='every unreadable-cache kind (empty, zeros, text, bad opcode, deleted, and nine byte strings on which pickle.load raises ValueError / ModuleNotFoundError / AttributeError / EOFError / UnpicklingError) x every loader',
+        shards={'quick': 3, 'thorough': 3}),
+    Sub(name='vasprun-cut-xml', kind='hyp', run=run_badxml, strategy=badxml_cases,
+        rule='a vasprun.xml that is itself cut inside the last <calculation>: strict and tolerant (exception_on_bad_xml=False) loads in generated order, each compared with its own cache-free reference (trajectory or exception type)',
+        n={'quick': 10, 'thorough': 200}, shards={'quick': 6, 'thorough': 16}),
     Sub(name='faults-and-options', kind='hyp', run=run_faults, strategy=fault_cases,
         rule='generated file sets per loader; truncation at a generated fraction, empty / zero-filled / text / bad-opcode / deleted cache; option variants (type_mapping, temperature, time_step, constant_lattice, atom_style, coords_format, parser kwargs) loaded while other caches are present',
         n={'quick': 25, 'thorough': 400}, shards={'quick': 12, 'thorough': 16}),
